@@ -77,12 +77,14 @@ NoJson(d) == [d EXCEPT !.json = FALSE]
 Fail(props, e, what, exp, got) ==
     PrintT(<<"FAIL", props, e.tr, e.i, e.mode, e.op, what, exp, got>>)
 
-Brief(d) == <<Class(d), d.body.k, d.cas, d.exp, d.rev,
-              [x \in XNames |-> <<d.xa[x].t, d.xa[x].cas, d.xa[x].crc.k>>]>>
+BB(b) == CASE b.k = "raw" -> <<"raw", b.r>> [] b.k = "num" -> <<"num", b.n>>
+            [] b.k = "obj" -> <<"obj", b.o["v"], b.o["a"], b.o["n"], b.o["n.x"]>> [] OTHER -> <<b.k>>
+Brief(d) == <<Class(d), BB(d.body), d.cas, d.exp, d.rev,
+              [x \in XNames |-> <<d.xa[x].t, d.xa[x].cas, BB(d.xa[x].crc)>>]>>
 
 BriefEv(v) == IF "body" \in DOMAIN v
-              THEN <<v.op, v.key, v.body.k, v.json, v.xf, v.cas, v.exp, v.rev, v.coll,
-                     [x \in XNames |-> <<v.xa[x].t, v.xa[x].cas, v.xa[x].crc.k>>]>>
+              THEN <<v.op, v.key, BB(v.body), v.json, v.xf, v.cas, v.exp, v.rev, v.coll,
+                     [x \in XNames |-> <<v.xa[x].t, v.xa[x].cas, BB(v.xa[x].crc)>>]>>
               ELSE <<v.op>>
 BriefEvs(s) == [i \in 1..Len(s) |-> BriefEv(s[i])]
 
